@@ -7,6 +7,8 @@
 #include <cstdio>
 #include <filesystem>
 #include <thread>
+#include <csignal>
+#include <sys/resource.h>
 using namespace ephemeralnet;
 using namespace std::chrono;
 int main(int argc, char** argv) {
@@ -37,6 +39,17 @@ int main(int argc, char** argv) {
             (void)store.sweep_expired();            // "no later than the next cleanup"
             if (files() != 0) { std::printf("REPRODUCED: the expiry was first noticed by a lookup; after the next sweep the chunk's file is still on disk (%zu file)\n", files()); rc = 1; }
         }
+    }
+    if (scenario == "iofail") {
+        // an overwrite pass that FAILS (file size limit -> EFBIG): the expired chunk's file must still be gone after the sweep
+        ChunkStore store(config);
+        ChunkId b{}; b[0] = 2;
+        store.put(b, ChunkData(16384, 7), seconds(1), {}, false);
+        std::signal(SIGXFSZ, SIG_IGN);
+        rlimit lim{4096, 4096}; setrlimit(RLIMIT_FSIZE, &lim);
+        std::this_thread::sleep_for(milliseconds(1150));
+        (void)store.sweep_expired();
+        if (files() != 0) { std::printf("REPRODUCED: the overwrite pass failed (EFBIG) and the expired chunk's file was left on disk (%zu file)\n", files()); rc = 1; }
     }
     std::filesystem::remove_all(dir);
     if (rc == 0) std::printf("live reads, overwrite, expiry at the deadline, listing and wipe all as required\n");
